@@ -74,7 +74,7 @@ PROPS = {
     },
     "C14": {
         "rules": [r_fmt.run_c14, r_cost.run_c14, kind_scope("trainer::model"), r_misc.cache, r_misc.idxbase,
-                  r_codec.run_c18, r_feat.csvdefault, r_writedict.run],
+                  r_codec.run_c18, r_feat.csvdefault, r_writedict.run, r_writedict.chartype],
         "explanation": "FMT: each generated file's row template (delimiters, column count and "
                        "order, quoted surface first, feature last) matches what the compiler's "
                        "reader does with each column (parse_csv column->field mapping, "
@@ -107,7 +107,8 @@ PROPS = {
     },
     "C18": {
         "rules": [kind_scope("trainer", "mecab"), r_fmt.bigram_files, r_codec.run_c18,
-                  r_misc.template_cover, r_misc.regex_trainer, r_misc.csvsplit, r_misc.bigram_details_shape],
+                  r_misc.template_cover, r_misc.regex_trainer, r_misc.csvsplit, r_misc.bigram_details_shape,
+                  r_writedict.chartype],
         "explanation": "KIND over the trainer: unigram/left/right templates, id tables and "
                        "next-id counters are never mixed (same-family rule on "
                        "extract_feature_ids), extract_left/right results reach the matching "
@@ -480,7 +481,8 @@ _ADDED = {
             "literal segment of the template. SCORERBUILD: the double array places a row only at "
             "a base that check_base found free for all of its keys.",
             "loop-shape rule over symbolic slices"),
-    "C18": ("TEMPLATE: extract_feature_ids copies every literal segment of a template (before "
+    "C18": ("CHARTYPE: the %t argument of extract_feature_set is base_id(char_info(first character "
+            "of the surface)) or the unk.def entry's category. TEMPLATE: extract_feature_ids copies every literal segment of a template (before "
             "each placeholder on every iteration, and the tail after the last one). "
             "CODEC over the model image: the hand-written FeatureExtractor / TrainerConfig "
             "codecs write and read the same fields in the same order (the id tables and next-id "
